@@ -37,14 +37,15 @@ PROPS = {
     "C19": dict(
         rules=[R("memory", "rule_build_diff", "arc"), R("memory", "rule_sibling_api", "arc"),
                R("memory", "rule_atomic", "arc"), R("borrow", "rule_borrow_arc", "arc"),
-               R("memory", "rule_snapshot_writeback", "arc")],
+               R("memory", "rule_snapshot_writeback", "arc"), R("borrow", "rule_recursive_read", "arc")],
         clause="The two runtimes are the same program outside the pointer/cell module: every shared function has the same "
                "callee multiset, branch count and arity in the rc and the arc build modulo the Rc/Arc, RefCell/RwLock "
                "renaming (R-BUILD-DIFF), and ptr_impl::{rc,arc} are siblings with non-blocking try_* variants "
                "(R-SIBLING-API); no operation re-acquires a lock it holds (self-deadlock under RwLock, R-BORROW on the arc "
                "build); no single container operation establishes a fact under one lock acquisition and acts on it under "
                "another (R-ATOMIC); no operation overwrites a whole container with a stale copy of itself "
-               "(R-SNAPSHOT-WRITEBACK). Not decided: linearizability, lost-update freedom in general, behaviour of operations "
+               "(R-SNAPSHOT-WRITEBACK) or asks for a second read lock on a container whose read lock it holds "
+               "(R-RECURSIVE-READ). Not decided: linearizability, lost-update freedom in general, behaviour of operations "
                "that run user callbacks.",
         technique="cross-configuration fact diff (two cargo feature sets) + guard live-range / lock re-acquisition "
                   "analysis on the arc build",
@@ -61,12 +62,12 @@ PROPS = {
         technique="table reconstruction from HIR arm lists and MIR aggregates; per-function reference census",
     ),
     "C20": dict(
-        rules=[R("interchange", "rule_serde_kinds"), R("interchange", "rule_serde_enc"), R("interchange", "rule_parse_err")],
+        rules=[R("interchange", "rule_serde_kinds"), R("interchange", "rule_serde_enc"), R("interchange", "rule_parse_err"), R("interchange", "rule_serde_narrow")],
         clause="The kind tables of writer and reader agree in both directions: every serde method the KValue writer calls "
                "has a non-default visitor counterpart building the same kind, with no numeric conversion in the writer and "
                "checked narrowing in the visitor (R-SERDE-KINDS); every KValue kind the Rust-data Serializer produces for a "
                "serde kind is accepted by the Deserializer's method for that kind (R-SERDE-ENC); the JSON/YAML/TOML "
-               "libraries never unwrap a parse result (R-PARSE-ERR). Not decided: round-trip equality of values, number "
+               "libraries never unwrap a parse result (R-PARSE-ERR). integer requests of the Deserializer convert the number with a checked conversion (R-SERDE-NARROW). Not decided: round-trip equality of values, number "
                "formatting, text corner cases.",
         technique="writer/reader table reconstruction from match-lowered MIR (discriminant switches, aggregates, "
                   "unresolved trait-method calls)",
@@ -94,10 +95,10 @@ PROPS = {
         technique="field-read census + control-dependence region analysis + call-graph effect closure (proof obligations)",
     ),
     "C01": dict(
-        rules=[R("enc", "rule_enc"), R("enc", "rule_handlers"), R("arith", "rule_num_wrap"), R("arith", "rule_div_float")],
+        rules=[R("enc", "rule_enc"), R("enc", "rule_handlers"), R("arith", "rule_num_wrap"), R("arith", "rule_div_float"), R("enc", "rule_varint")],
         clause="Every instruction the compiler emits has the byte layout its decoder reads, and every opcode / instruction "
                "has a consumer (R-ENC, R-HANDLERS); integer `+ - * % ^` and negation wrap and `/` always builds a float, by construction of KNumber's "
-               "operator impls (R-NUM-WRAP, R-DIV-FLOAT). Not decided: result values, evaluation order, "
+               "operator impls (R-NUM-WRAP, R-DIV-FLOAT). the reader masks every var-int byte with 0x7f, matching the writer (R-VARINT). Not decided: result values, evaluation order, "
                "short-circuiting, stale result registers, independence from surrounding code (properties of emitted "
                "code paths).",
         technique="Assert-terminator census and aggregate-variant census over the operator impls' MIR",
@@ -131,11 +132,11 @@ PROPS = {
         technique="type walk over ADT facts + MIR def-use (handle fields, output evidence) + call-graph reachability",
     ),
     "C04": dict(
-        rules=[R("vm", "rule_frames"), R("vm", "rule_catch_restore"), R("iters", "rule_iter_err"), R("values", "rule_replace_atomic"), R("compiler", "rule_try_exit"), R("vm", "rule_err_kind")],
+        rules=[R("vm", "rule_frames"), R("vm", "rule_catch_restore"), R("iters", "rule_iter_err"), R("values", "rule_replace_atomic"), R("compiler", "rule_try_exit"), R("vm", "rule_err_kind"), R("vm", "rule_err_swallow")],
         clause="Every nested interpreter entry sets the execution barrier and pops its frame when the nested run fails "
                "(R-FRAMES); resuming at a catch handler restores the sequence/string builder stacks (R-CATCH-RESTORE); "
                "no iterator output that may carry an error is dropped on its way up through adaptors and consumers "
-               "(R-ITER-ERR). the multi-step replace-at-index of a map entry cannot be interrupted by an error exit (R-REPLACE-ATOMIC). break / continue emit TryEnd for the try blocks they leave, the only way a catch point is removed (R-TRY-EXIT). a thrown value travels as an Error, never as its rendering (R-ERR-KIND). Not decided: finally on every path, handler scoping across break/continue/return "
+               "(R-ITER-ERR). the multi-step replace-at-index of a map entry cannot be interrupted by an error exit (R-REPLACE-ATOMIC). break / continue emit TryEnd for the try blocks they leave, the only way a catch point is removed (R-TRY-EXIT). a thrown value travels as an Error, never as its rendering (R-ERR-KIND). a failed overloaded operator is never replaced by the fallback's outcome unless it threw koto.unimplemented (R-ERR-SWALLOW). Not decided: finally on every path, handler scoping across break/continue/return "
                "(emitted control flow), variable state after a catch.",
         technique="MIR path rules (sibling protocol at nested entries, must-pass-through) + linear-value evidence rule",
     ),
@@ -186,7 +187,7 @@ PROPS = {
         rules=[R("enc", "rule_enc"), R("enc", "rule_handlers"), R("enc", "rule_enc_flags"),
                R("placeholder", "rule_placeholder"), R("compiler", "rule_jump_checked"), R("compiler", "rule_det"),
                R("narrow", "rule_narrow"), R("compiler", "rule_builder_bal"),
-               R("compiler", "rule_func_skip"), R("compiler", "rule_frame_return")],
+               R("compiler", "rule_func_skip"), R("compiler", "rule_frame_return"), R("enc", "rule_varint")],
         clause="Writer/reader layout agreement for every (emission site, opcode) pair (R-ENC), including the StringPush flags "
                "byte (R-ENC-FLAGS); every opcode and instruction has a consumer (R-HANDLERS); every jump placeholder is "
                "patched (R-PLACEHOLDER); jump distances are range-checked, never truncated (R-JUMP-CHECKED); no "
@@ -196,7 +197,7 @@ PROPS = {
                "decodes a signed byte (R-NARROW); per Compiler method, emitted SequenceStart/StringStart/TryStart are "
                "closed by the emitted SequenceTo*/StringFinish/TryEnd on every non-error path (R-BUILDER-BAL); a nested function's "
                "body is always preceded by a Function op or a Jump over it (R-FUNC-SKIP) and every frame ends in a Return "
-               "unless its own last expression is a `return` (R-FRAME-RETURN). Not decided: "
+               "unless its own last expression is a `return` (R-FRAME-RETURN). var-int bytes are masked with 0x7f by the reader as the writer assumes (R-VARINT). Not decided: "
                "register/constant indices in range for all programs, balance across methods (nested constructs rely on "
                "each method being balanced).",
         technique="writer/reader grammar extraction from MIR (macro-provenance of decoder reads, array types and emission "
@@ -214,10 +215,10 @@ PROPS = {
         technique="MIR path rules (pairing on all exits) over a rustc_private fact dump",
     ),
     "C08": dict(
-        rules=[R("vm", "rule_timeout_poll"), R("vm", "rule_timeout_nocatch"), R("vm", "rule_unwind_all"), R("vm", "rule_err_kind")],
+        rules=[R("vm", "rule_timeout_poll"), R("vm", "rule_timeout_nocatch"), R("vm", "rule_unwind_all"), R("vm", "rule_err_kind"), R("vm", "rule_err_swallow")],
         clause="The deadline poll dominates every instruction dispatch in the interpreter loop (R-TIMEOUT-POLL) and a "
                "timeout is never offered to a catch handler, including timeouts returned by nested interpreter entries "
-               "(R-TIMEOUT-NOCATCH). a timeout leaves the interpreter loop through the unwinder like every other error (R-UNWIND-ALL). errors keep their kind when they are passed on: no Error is rendered to text and re-wrapped (R-ERR-KIND). Not decided: time bounds/slack, adaptive poll interval, native loops.",
+               "(R-TIMEOUT-NOCATCH). a timeout leaves the interpreter loop through the unwinder like every other error (R-UNWIND-ALL). errors keep their kind when they are passed on: no Error is rendered to text and re-wrapped (R-ERR-KIND). after a nested entry has failed only a thrown koto.unimplemented can lead on to a fallback, every other error is returned (R-ERR-SWALLOW). Not decided: time bounds/slack, adaptive poll interval, native loops.",
         technique="MIR dominance / must-pass-through and constant-argument analysis",
     ),
     "C18": dict(
